@@ -875,7 +875,7 @@ fn first_difference(a: &[String], b: &[String]) -> String {
 pub fn run_c13(ctx: &Ctx) -> i32 {
     let spec = Spec {
         level: "exploration",
-        rule: "cases: (a) a depth-limited script (2..7 position/go depth 3..6 commands on middlegames) run in N separate processes of the real binary — each draws its own random hash keys — must give byte-identical transcripts once the time and nps fields are removed; (b) in-process, K fresh searchers (K key sets) must agree on (score, move, node count) for each (position, depth); (c) the transcript of a script after 'prefix; ucinewgame' (prefix: searches, time-limited searches, long position histories, games from the start position that repeat positions two or three times; the script often starts with a bare go, which searches the start position) must equal its transcript in a fresh process; (c') after 1..24 quick searches and ucinewgame, a whole game searched move after move (12..20 searches at depth 4..5) must equal the same game in a fresh process; an engine that dies in the compared part while a fresh process runs it to the end (and that demonstrably survives 'prefix; ucinewgame') differs from a fresh process too; (d) injected delays: a depth-limited script (optionally with a depth-1 go that carries a move time or a clock first) is run once normally and once with the process stopped (SIGSTOP) for 0.7..1.1 s in the middle of every 'go depth N' — the transcripts must be identical. Distinct by script / (position, depth); all non-trivial (every case compares at least two executions)",
+        rule: "cases: (a) a depth-limited script (2..7 position/go depth 3..6 commands on middlegames) run in N separate processes of the real binary — each draws its own random hash keys — must give byte-identical transcripts once the time and nps fields are removed; (b) in-process, K fresh searchers (K key sets) must agree on (score, move, node count) for each (position, depth); (c) the transcript of a script after 'prefix; ucinewgame' (prefix: searches, time-limited searches, long position histories, games from the start position that repeat positions two or three times; the script often starts with a bare go, which searches the start position) must equal its transcript in a fresh process; (c') after 1..24 quick searches and ucinewgame, a whole game searched move after move (12..20 searches at depth 4..5) must equal the same game in a fresh process; an engine that dies in the compared part while a fresh process runs it to the end (and that demonstrably survives 'prefix; ucinewgame') differs from a fresh process too; (d) injected delays: a depth-limited script (optionally with a depth-1 go that carries a move time or a clock first) is run once normally and once with the process stopped (SIGSTOP) for 2.3..2.7 s in the middle of every 'go depth N' — the transcripts must be identical. Distinct by script / (position, depth); all non-trivial (every case compares at least two executions)",
         assumptions: vec!["key sets not drawn in this run are not covered".into(), "only depth-limited searches are compared (time-limited ones legitimately depend on the machine)".into()],
         required: if ctx.replay.is_some() { vec![] } else { vec!["scripts_compared_across_processes", "process_pairs_compared", "key_set_groups_compared", "ucinewgame_scripts_compared", "ucinewgame_scripts_starting_with_bare_go", "ucinewgame_scripts_resuming_the_previous_game_line", "soak_scripts_compared", "ucinewgame_then_a_whole_game_compared", "scripts_compared_with_and_without_injected_delays", "paused_scripts_after_a_go_that_carried_a_clock_and_ended_at_once"] },
         exhaustive: false,
@@ -887,10 +887,10 @@ pub fn run_c13(ctx: &Ctx) -> i32 {
             let cmds: Vec<String> = c.get("commands").and_then(|a| a.as_arr()).map(|a| a.iter().filter_map(|x| x.as_str().map(|s| s.to_string())).collect()).unwrap_or_default();
             if c.str_of("kind") == "paused" {
                 st.case(1, true);
-                match (transcript_paused(ctx, &cmds, 0), transcript_paused(ctx, &cmds, 1100)) {
+                match (transcript_paused(ctx, &cmds, 0), transcript_paused(ctx, &cmds, 2700)) {
                     (Ok(a), Ok(b)) => {
                         if a != b {
-                            st.violation("C13:replay", format!("output differs when the process is stopped for 1100 ms in the middle of each 'go depth': {}", first_difference(&a, &b)), c.clone());
+                            st.violation("C13:replay", format!("output differs when the process is stopped for 2700 ms in the middle of each 'go depth': {}", first_difference(&a, &b)), c.clone());
                         }
                     }
                     _ => st.inconclusive.push("replay: a process failed".into()),
@@ -1165,8 +1165,8 @@ pub fn run_c13(ctx: &Ctx) -> i32 {
                 let mv: Vec<String> = ms.iter().map(|m| m.uci()).collect();
                 let pos = if mv.is_empty() { "position startpos".to_string() } else { format!("position startpos moves {}", mv.join(" ")) };
                 let timed = match (w + rep) % 3 {
-                    0 => Some(format!("go depth 1 movetime {}", rng.pick(&[300u64, 500, 800]))),
-                    1 => Some(format!("go depth 1 wtime {} btime {} winc 0 binc 0", 20_000, 20_000)),
+                    0 => Some(format!("go depth 1 movetime {}", rng.pick(&[3000u64, 4000]))),
+                    1 => Some(format!("go depth 1 wtime {} btime {} winc 0 binc 0", 100_000, 100_000)),
                     _ => None,
                 };
                 let mut script = vec![pos.clone()];
@@ -1181,7 +1181,9 @@ pub fn run_c13(ctx: &Ctx) -> i32 {
                 let case = J::obj(vec![("kind", J::s("paused")), ("commands", J::arr_s(script.clone())), ("compare_from", J::i(0))]);
                 st.case(hash64(&(script.clone(), 0xdeu8)), true);
                 st.sample_tagged("paused", || case.clone());
-                let pause = *rng.pick(&[700u64, 1100]);
+                // budgets of seconds, so that not even a heavily loaded machine can make the depth-1 search itself
+                // run out of time; the pause is longer than half of any of them
+                let pause = *rng.pick(&[2300u64, 2700]);
                 match (transcript_paused(ctx, &script, 0), transcript_paused(ctx, &script, pause)) {
                     (Ok(a), Ok(b)) => {
                         st.bump("scripts_compared_with_and_without_injected_delays");
